@@ -97,10 +97,12 @@ let () =
           let expr = if !toks.(!pos) = "NONE" then (incr pos; None) else Some (read_expr ()) in
           let np = next_int () in
           let pts = List.init np (fun _ -> let x = next_z () in let y = next_z () in (x, y)) in
-          let simple = forallb contour_ok res in
-          let noconf = no_conflicts (all_edges res) in
-          let w01 = wind01 res pts in
+          (* the verdict is the extracted regular_check; its three conjuncts are
+             re-evaluated separately only to explain a rejection *)
           let regular = regular_check res pts in
+          let simple = regular || forallb contour_ok res in
+          let noconf = regular || no_conflicts (all_edges res) in
+          let w01 = regular || wind01 res pts in
           let formula, nfar = match expr with
             | None -> true, Z0
             | Some ex -> formula_check e ex res pts, count_far e ex pts in
